@@ -269,3 +269,7 @@ Fixpoint prun (ops : list (op * plan)) (P : pool) : pool * list outcome :=
   | (o, p) :: r => let s := pstep p o P in let t := prun r (fst s) in (fst t, snd s :: snd t)
   end.
 Definition empty_pool (n : nat) : pool := repeat None n.
+
+(* not part of the model: ocaml/glue_base.ml (shared, textually appended after the extracted code) mentions the
+   extracted type `byte`; extracting this constant makes that type exist in vec_model.ml *)
+Definition glue_byte_anchor : Init.Byte.byte := Init.Byte.x00.
